@@ -5,8 +5,8 @@
 
 1. confirms in a scratch worktree (outside /repo and /verif) that the demo passes without the patch, that the
    patch applies and compiles, that the pinned lib tests still pass with it, and that the demo fails with it;
-2. applies the patch to /repo, runs the requested checks (default: all), records which of them report a
-   VIOLATION, and reverts /repo (git checkout -- .);
+2. applies the patch to a second scratch worktree, points the checks at it (VERIF_REPO), runs the requested checks
+   (default: all), records which of them report a VIOLATION, and removes the worktree; /repo itself is never touched;
 3. stores patch, demo, meta and the detection matrix under /verif/seeded/<name>/.
 Never commits anything to /repo.
 """
@@ -36,10 +36,6 @@ def main():
     all_checks = [c["property_id"] for c in manifest["checks"]]
     checks = checks or all_checks
     out = {"name": name, "confirm": {}, "detected_by": [], "not_detected_by": [], "details": {}}
-    status = subprocess.run("git -C /repo status --porcelain", shell=True, stdout=subprocess.PIPE, text=True).stdout.strip()
-    if status:
-        print("refusing: /repo has uncommitted changes:\n" + status)
-        sys.exit(2)
     demo_name = "demo_" + re.sub(r"[^A-Za-z0-9_]", "_", name)
     if not skip_confirm:
         sh(f"git -C {REPO} worktree remove --force {SCRATCH}")
@@ -70,15 +66,20 @@ def main():
             sh(f"git -C {REPO} worktree remove --force {SCRATCH}")
             shutil.rmtree(SCRATCH, ignore_errors=True)
     print("confirm:", {k: v for k, v in out["confirm"].items() if k != "demo_output_with_patch_tail"})
-    # run the checks against the patched /repo
-    rc, o = sh(f"git -C {REPO} apply {os.path.abspath(patch)}")
+    # run the checks against a scratch copy of the repository with the patch applied (VERIF_REPO); /repo is not touched
+    alt = "/tmp/seedeval-repo"
+    sh(f"git -C {REPO} worktree remove --force {alt}")
+    shutil.rmtree(alt, ignore_errors=True)
+    rc, o = sh(f"git -C {REPO} worktree add --detach {alt} HEAD")
+    rc, o = sh(f"git apply {os.path.abspath(patch)}", cwd=alt)
     if rc != 0:
-        print("cannot apply to /repo:", o)
+        print("cannot apply the patch:", o)
+        sh(f"git -C {REPO} worktree remove --force {alt}")
         sys.exit(2)
     try:
         for c in checks:
             t0 = time.time()
-            rc, o = sh(f"./check {c} {tier}", cwd=VERIF, timeout=3600)
+            rc, o = sh(f"./check {c} {tier}", cwd=VERIF, timeout=3600, env={"VERIF_REPO": alt})
             viol = [l for l in o.splitlines() if l.startswith("VIOLATION")]
             rules = sorted(set(re.findall(r"rule (\S+ \[[^\]]*\])", o)))
             verdict = "VIOLATION" if viol else ("ok" if rc == 0 else f"exit{rc}")
@@ -86,15 +87,15 @@ def main():
             (out["detected_by"] if viol else out["not_detected_by"]).append(c)
             print(f"  {c}: {verdict} {rules[:3]}")
     finally:
-        sh(f"git -C {REPO} checkout -- .")
-        sh(f"git -C {REPO} clean -fd -- src tests")
+        sh(f"git -C {REPO} worktree remove --force {alt}")
+        shutil.rmtree(alt, ignore_errors=True)
     dst = os.path.join(VERIF, "seeded", name)
     os.makedirs(dst, exist_ok=True)
     shutil.copy(patch, os.path.join(dst, "patch.diff"))
     shutil.copy(demo, os.path.join(dst, "demo.rs"))
     m = json.load(open(meta)) if os.path.exists(meta) else {}
     m.update({"evaluation": out, "evaluated_at_repo_commit": subprocess.run("git -C /repo rev-parse --short HEAD", shell=True, stdout=subprocess.PIPE, text=True).stdout.strip(),
-              "what_was_run": f"seedeval.py: scratch-worktree confirmation (demo without/with patch, lib tests with patch), then ./check <id> {tier} for {checks} with the patch applied to /repo, then git checkout"})
+              "what_was_run": f"seedeval.py: scratch-worktree confirmation (demo without/with patch, lib tests with patch), then VERIF_REPO=<scratch worktree with the patch> ./check <id> {tier} for {checks}"})
     json.dump(m, open(os.path.join(dst, "meta.json"), "w"), indent=1)
     print("detected by:", out["detected_by"])
 
